@@ -306,7 +306,7 @@ class Machine:
         self.result = value
         # raising clauses: on a normal return none of the raise conditions held at entry
         for exc, cond in c.raises:
-            if cond.strip() == "*":
+            if cond.strip() == "*" or cond.strip().startswith("only:"):      # "only: c" = may be raised, and only when c held at entry
                 continue
             ctx.check(z3.Not(self.spec_bool(cond, old=True)), f"{c.key}/raises[{exc}]/not-on-return", "raises")
         for u in c.use:
@@ -327,7 +327,7 @@ class Machine:
         for ecls, cond in c.raises:
             if self.world.is_subclass(exc.cls, ecls) and ecls == exc.cls or exc.cls == ecls:
                 if cond.strip() != "*":
-                    condt = self.spec_bool(cond, old=True)
+                    condt = self.spec_bool(cond.strip()[5:] if cond.strip().startswith("only:") else cond, old=True)
                     ctx.check(condt, f"{c.key}/raises[{ecls}]/only-when", "raises")
                 matched = True
                 break
@@ -1913,7 +1913,10 @@ class Machine:
             # exceptional exits
             if not self.spec:
                 for ecls, cond in c.raises:
-                    condt = z3.Bool(fresh_name("nondet_raise")) if cond.strip() == "*" else self.spec_bool(cond)
+                    if cond.strip().startswith("only:"):
+                        condt = z3.And(z3.Bool(fresh_name("nondet_raise")), self.spec_bool(cond.strip()[5:]))
+                    else:
+                        condt = z3.Bool(fresh_name("nondet_raise")) if cond.strip() == "*" else self.spec_bool(cond)
                     if self.ctx.branch(condt):
                         self.havoc_modifies(c)
                         for e_ in c.exc_ensures:
